@@ -5,10 +5,11 @@ cd $WT || exit 9
 demo=$(ls demo_*.py | head -1)
 suite=$(PYTHONPATH=$WT/src /venv/bin/python -m pytest -q -p no:cacheprovider -n 8 --timeout=900 2>&1 | tail -1)
 (cd /tmp && PYTHONPATH=$WT/src timeout 300 /venv/bin/python $WT/$demo >/tmp/seed_with.txt 2>&1); with_rc=$?
-git stash push -q -- src
-(cd /tmp && PYTHONPATH=$WT/src timeout 300 /venv/bin/python $WT/$demo >/tmp/seed_without.txt 2>&1); without_rc=$?
-git stash pop -q
+# (never `git stash`: the stash is shared by all worktrees of the repository)
 git diff -- src > /tmp/seed_patch.diff
+git apply -R /tmp/seed_patch.diff
+(cd /tmp && PYTHONPATH=$WT/src timeout 300 /venv/bin/python $WT/$demo >/tmp/seed_without.txt 2>&1); without_rc=$?
+git apply /tmp/seed_patch.diff
 echo "$ID suite: $suite | demo with change rc=$with_rc | demo on original rc=$without_rc | base $(git rev-parse --short HEAD)"
 if echo "$suite" | grep -q "1080 passed" && [ $with_rc -ne 0 ] && [ $without_rc -eq 0 ]; then
   mkdir -p /verif/seeded/$ID
